@@ -349,7 +349,13 @@ def exec_history(pid, tpl, seed, hid, ops, keys, plen, lib_only=False, intr=Fals
                     for j, n in enumerate(o["nonces"]):
                         seal("fk:" + o["file_key"], n, j)
             elif op == "generate":
-                r = cli.kestrel(["key", "generate", "--env-pass"], env={"KESTREL_PASSWORD": pw.decode()}, stdin=b"samename\n")
+                if k % 2 == 1:
+                    # the same on a terminal (the tool formats what it prints differently there)
+                    import ptyrun
+                    rc_, tr_, _ = ptyrun.run_tty(["key", "generate", "--env-pass"], ["samename"], env={"KESTREL_PASSWORD": pw.decode()}, timeout=60, interrupt=False)
+                    r = cli.Run(rc_, tr_, b"")
+                else:
+                    r = cli.kestrel(["key", "generate", "--env-pass"], env={"KESTREL_PASSWORD": pw.decode()}, stdin=b"samename\n")
                 m = re.search(rb"PrivateKey = (\S+)", r.out)
                 o = {"ok": False}
                 if r.rc == 0 and m:
@@ -361,8 +367,14 @@ def exec_history(pid, tpl, seed, hid, ops, keys, plen, lib_only=False, intr=Fals
                     seal("scrypt:" + o["salt_hex"], 0, 0)
                     locked, locked_pw = m.group(1).decode(), pw
             elif op == "changepass":
-                r = cli.kestrel(["key", "change-pass", locked, "--env-pass"],
-                                env={"KESTREL_PASSWORD": locked_pw.decode(), "KESTREL_NEW_PASSWORD": pw.decode()})
+                if k % 2 == 1:
+                    import ptyrun
+                    rc_, tr_, _ = ptyrun.run_tty(["key", "change-pass", locked, "--env-pass"], [],
+                                                 env={"KESTREL_PASSWORD": locked_pw.decode(), "KESTREL_NEW_PASSWORD": pw.decode()}, timeout=60, interrupt=False)
+                    r = cli.Run(rc_, tr_, b"")
+                else:
+                    r = cli.kestrel(["key", "change-pass", locked, "--env-pass"],
+                                    env={"KESTREL_PASSWORD": locked_pw.decode(), "KESTREL_NEW_PASSWORD": pw.decode()})
                 m = re.search(rb"PrivateKey = (\S+)", r.out)
                 o = {"ok": False}
                 if r.rc == 0 and m:
@@ -577,7 +589,9 @@ def c08(pid, tier, seed, selftest=False):
         plen = [0, 1, 10, 65536, 65537, 131072, 200000][i % 7] if i < 21 else rnd.randint(0, 300000)
         reads = [] if i % 3 == 0 else [rnd.randint(1, 65536) for _ in range(rnd.randint(1, 5))]
         one.append({"op": "clear", "id": "cl%d" % i, "api": "key" if i % 4 else "pass", "plen": plen, "reads": reads, "k": i, "pseed": i,
-                    "eph": ["both", "both", "priv_only", "pub_only", "none"][i % 5]})
+                    "eph": ["both", "both", "priv_only", "pub_only", "none"][i % 5],
+                    # how much the sink takes per write call (0: everything): below, at and above the header sizes
+                    "wmax": [0, 1, 7, 35, 100, 131, 132, 4096, 65551][i % 9]})
     for s in one:
         rep.case(json.dumps(s, sort_keys=True), s["plen"] > 65536 or bool(s["reads"]))
     rep.sample(one[1])
